@@ -1782,7 +1782,14 @@ class ASTConverter:
     def visit_MatchSequence(self, n: ast3.MatchSequence) -> SequencePattern:
         patterns = [self.visit(p) for p in n.patterns]
         stars = [p for p in patterns if isinstance(p, StarredPattern)]
-        assert len(stars) < 2
+        if len(stars) >= 2:
+            # The ast module accepts this, the compiler doesn't.
+            self.fail(
+                ErrorMessage("Multiple starred names in sequence pattern", code=codes.SYNTAX),
+                n.lineno,
+                n.col_offset,
+                blocker=True,
+            )
 
         node = SequencePattern(patterns)
         return self.set_line(node, n)
